@@ -133,6 +133,8 @@ def build_fgg(rec) -> Tuple[FGG, Dict[str, Any]]:
     fgg = FGG(label(rec["start"]))
     for lhs, rhs in rec["rules"]:
         fgg.add_rule(HRGRule(label(lhs), build_graph(rhs)))
+    for ref in rec.get("extra_labels", []):          # edge labels of the grammar that no rule uses
+        fgg.add_edge_label(label(ref))
     for name, (kind, v) in rec["domains"].items():
         fgg.add_domain(NodeLabel(name), FiniteDomain(list(v)) if kind == "finite" else RangeDomain(v))
     dense = {}
@@ -327,8 +329,8 @@ def check_roundtrip(case, col: Collector) -> bool:
         got_e = sorted(v["id"] for v in jr["rhs"]["edges"] if "id" in v)
         if want_e != got_e:
             bad("ids", "explicit-edge-ids-in-json", f"{got_e} vs {want_e}")
-    # sum-product equal (non-recursive grammars)
-    if not recursive(rec):
+    # sum-product equal (non-recursive grammars whose terminals all carry a factor)
+    if not recursive(rec) and all(t.name in fgg.factors for t in fgg.terminals()):
         try:
             z1 = fggs.sum_product(fgg)
             z2 = fggs.sum_product(fgg2)
@@ -463,6 +465,18 @@ def roundtrip_cases(ctx: Ctx) -> List[dict]:
                     rec["domains"] = {k: v for k, v in domains(profile % 3).items() if any(k in t for t in list(g["terminals"].values()) + [r[0].rsplit(":", 1)[1] for r in g["rules"]])}
                     rec["factors"] = factors(g["terminals"], profile, rng)
                     cases.append({"kind": "roundtrip", "fgg": rec, "tags": [gname, mode, f"profile{profile}"]})
+    # labels that no rule uses (declared with add_edge_label; a terminal among them may carry a factor): they are part of the
+    # grammar ("same start, labels and types") and of its interpretation
+    g = grammars()["nonrec"]
+    for mode in ("explicit", "implicit"):
+        for with_factor in (False, True):
+            rec = id_mode({k: v for k, v in g.items() if k != "terminals"}, mode)
+            rec["extra_labels"] = ["uT:A", "vT:AB", "ZN:A"]
+            terms = dict(g["terminals"], **({"u": "A", "v": "AB"} if with_factor else {}))
+            rec["domains"] = {k: v for k, v in domains(0).items() if k in "AB"}
+            rec["factors"] = factors(terms, 0, rng)
+            cases.append({"kind": "roundtrip", "fgg": rec,
+                          "tags": ["nonrec", mode, "labels-no-rule-uses" + ("+factor" if with_factor else "")]})
     return cases
 
 
